@@ -25,7 +25,7 @@ sys.path.insert(0, ROOT)
 from vf import core  # noqa: E402
 from vf.core import PROVED, REFUTED, UNDECIDED, Ob  # noqa: E402
 
-CONTRACT_MODULES = ["contracts.nodes", "contracts.times", "contracts.captures", "contracts.deref", "contracts.typing",
+CONTRACT_MODULES = ["contracts.nodes", "contracts.times", "contracts.captures", "contracts.deref", "contracts.typing", "contracts.toplevel",
                     "contracts.driver", "contracts.config", "contracts.parser", "contracts.macros", "contracts.cli_main",
                     "contracts.canaries"]
 
@@ -166,7 +166,13 @@ def main(argv=None) -> int:
     replay_paths: List[str] = []
     if new or sweep_viol:
         from vf import replay
-        for (o, _f) in new:
+        picked, seen_ff = [], set()
+        for (o, _f) in new:                     # one replay per (function, family), at most 6
+            k = (o["func"], o["family"])
+            if k not in seen_ff and len(picked) < 6:
+                seen_ff.add(k)
+                picked.append(o)
+        for o in picked:
             path, confirmed = replay.write(prop, o)
             replay_paths.append(path)
             lines.append(f"VIOLATION property={prop} replay={path}" + ("" if confirmed else " no-failing-input-found"))
